@@ -52,6 +52,7 @@ VM_FIELDS = {
     "warning_count": INT,
 }
 SETTINGS_FIELDS = {
+    "init": "List (Int × Int)",
     "data_start": INT,
     "warn_return_on": BOOL,
     "warning_count": INT,
@@ -645,7 +646,12 @@ class FnTranslator:
             # vm.field = e   /  vm.settings.field = e
             if self.is_vm(target.value) and target.attr in VM_FIELDS:
                 want = VM_FIELDS[target.attr]
-                t, ty = self.expr(value, env, pre)
+                if target.attr == "location" and isinstance(value, ast.Constant) and value.value is None:
+                    t, ty = "(-1 : Int)", INT
+                elif isinstance(value, ast.List) and not value.elts and want.startswith("List "):
+                    t, ty = "[]", want
+                else:
+                    t, ty = self.expr(value, env, pre)
                 if ty != want:
                     self.err(stmt, "ILL-TYPED: vm.{} : {} assigned {} expression `{}`".format(
                         target.attr, want, ty, ast.unparse(value)))
@@ -684,6 +690,11 @@ class FnTranslator:
 
     def for_loop(self, s, env, pre, lines, ind):
         # for c in <Str>: body with effects, no local rebinding visible afterwards
+        tuple_target = None
+        if isinstance(s.target, ast.Tuple) and all(isinstance(e, ast.Name) for e in s.target.elts):
+            tuple_target = [e.id for e in s.target.elts]
+            s = ast.For(target=ast.Name(id="_".join(tuple_target), ctx=ast.Store()), iter=s.iter, body=s.body,
+                        orelse=s.orelse, lineno=s.lineno, col_offset=s.col_offset)
         if s.orelse or not isinstance(s.target, ast.Name):
             self.err(s, "unsupported for loop")
         it, ity = self.expr(s.iter, env, pre)
@@ -699,6 +710,14 @@ class FnTranslator:
         var = "v_" + s.target.id
         env2 = dict(env)
         env2[s.target.id] = (var, ety)
+        if tuple_target is not None:
+            if not ety.startswith("("):
+                self.err(s, "tuple target over elements of type " + ety)
+            comps = [c.strip() for c in ety[1:-1].split("×")]
+            if len(comps) != len(tuple_target):
+                self.err(s, "tuple target arity")
+            for i, name in enumerate(tuple_target):
+                env2[name] = (proj_term(var, i, len(comps)), comps[i])
         saved = self.ret_type
         self.ret_type = None
         body = self.block(list(s.body), env2, ind + "    ")
